@@ -139,6 +139,22 @@ package crypto
 //@ func AuthenticateTokenV2
 //@   ensures [authentic_only_with_its_origin_chain] err == nil && tokenHasOrigin() ==> originChainAuthenticated()
 
+// ---- C30 (the chain state a V2 token's N3 witness is judged against): the state of the
+// moment the token was issued - the FS chain height of the epoch in force at the token's
+// issue time. The Netmap contract's getEpochBlockByTime compares its argument with block
+// timestamps, which are Unix milliseconds (neofs-contract, contracts/netmap: GetEpochTime /
+// GetEpochBlockByTime): the issue time must arrive there whole.
+//@ ghost pred issueTimeMillis() int64
+//@ callrule c30_issue_time in verifyN3ScriptsAtTime
+//@   property C30
+//@   callee (time.Time).UnixMilli
+//@   pureeffect
+//@   defines result == issueTimeMillis()
+//@ callrule c30_issue_time_reaches_the_contract_whole in verifyN3ScriptsAtTime
+//@   property C30
+//@   callee *).GetEpochBlockByTime
+//@   requires [issue_time_in_milliseconds_not_truncated] wide(a0) == wide(issueTimeMillis())
+
 // ---- C24 (objects created within a delegated session): "the signature authenticates the
 // session" includes the delegation chain of a V2 token being well formed - every token's
 // issuer is a subject of the token it derives from, verbs and lifetimes only narrow - which
